@@ -205,7 +205,7 @@ def pairing_cases(draw, tier, first=None, families=None, max_len=8, min_len=1, a
     case = dict(pr)
     case['D'], case['P'] = D, P
     dense = gen.nice_floats(-1.0, 1.0)
-    case['hi'] = [draw(gen.float_array((D - 1, P) + p.shape[1:], gen.coeff_elements(1.0))) for p in pr['pts']]
+    case['hi'] = [draw(gen.higher_coeffs((D - 1, P) + p.shape[1:], gen.coeff_elements(1.0))) for p in pr['pts']]
     case['v'] = [draw(gen.float_array((D, P) + p.shape[1:], dense, sparse=False)) for p in pr['pts']]
     outshape = np.shape(PG.run(pr['prog'], [np.array(p[0], dtype=float) for p in pr['pts']])[pr['out']])
     case['ybar'] = draw(gen.float_array((D, P) + tuple(outshape), dense, sparse=False))
